@@ -58,7 +58,7 @@ func runC01Types(c *Ctx, w *ATWorld) {
 	for _, onlyCare := range []bool{true, false} {
 		for _, ser := range []string{"json", "protobuf"} {
 			for _, cl := range cols {
-				for qi := 0; qi < 3; qi++ {
+				for qi := 0; qi < 5; qi++ {
 					n++
 					cid := fmt.Sprintf("c01-t%d", n)
 					if !c.Want(cid) {
@@ -71,10 +71,25 @@ func runC01Types(c *Ctx, w *ATWorld) {
 					if err := w.Eng.CreateTable(memdb.TableDef{Name: t, Cols: []memdb.Column{{Name: "id", Type: memdb.TBigInt}, d}, PK: []string{"id"}}); err != nil {
 						panic(err)
 					}
-					if err := w.Eng.InsertRows(t, memdb.Row{int64(1), cl.v0}, memdb.Row{int64(2), cl.v0}); err != nil {
+					// the second row holds another value of the type (a multi-row image must keep the rows apart: the
+					// driver hands out byte values as slices of a buffer the next row overwrites)
+					var second interface{} = cl.v0
+					switch x := cl.v0.(type) {
+					case []byte:
+						second = append([]byte{}, x...)
+						second.([]byte)[len(x)-1] ^= 1
+					case string:
+						if cl.def.Type != memdb.TDecimal && cl.def.Type != memdb.TJSON && len(x) > 0 {
+							second = x[:len(x)-1] + "z"
+						}
+					case int64:
+						second = x - 1
+					}
+					if err := w.Eng.InsertRows(t, memdb.Row{int64(1), cl.v0}, memdb.Row{int64(2), second}); err != nil {
 						panic(err)
 					}
-					q := []string{"UPDATE " + t + " SET v = " + cl.v1 + " WHERE id = 1", "DELETE FROM " + t + " WHERE id = 2", "INSERT INTO " + t + " (id, v) VALUES (3, " + cl.v1 + ")"}[qi]
+					q := []string{"UPDATE " + t + " SET v = " + cl.v1 + " WHERE id = 1", "DELETE FROM " + t + " WHERE id = 2", "INSERT INTO " + t + " (id, v) VALUES (3, " + cl.v1 + ")",
+						"UPDATE " + t + " SET v = " + cl.v1 + " WHERE id <= 2", "DELETE FROM " + t + " WHERE id <= 2"}[qi]
 					before := w.DumpTable(t)
 					w.coord.ResetLog()
 					var execErr error
